@@ -6,11 +6,11 @@ from ..gen import G, WINDOW, fmt_date_layout, LAYOUTS
 from ..common import run_apps, app, out_of, sig
 from ..core import unhx
 
-THEOREMS = ['interval_exact', 'inverted_is_empty', 'filter_eq_delete', 'innermost_wins', 'keywords', 'summary_selects_day', 'summary_date_selects_day', 'day_count_advances', 'yesterday_is_previous_day', 'parsed_date_is_calendar_day', 'instants_order_is_calendar_order', 'period_is_calendar_interval', 'day_number_reads_back', 'summary_date_is_that_day', 'mixed_levels_keep_both', 'bounds_independent']
+THEOREMS = ['interval_exact', 'inverted_is_empty', 'filter_eq_delete', 'innermost_wins', 'keywords', 'summary_selects_day', 'summary_date_selects_day', 'day_count_advances', 'yesterday_is_previous_day', 'parsed_date_is_calendar_day', 'instants_order_is_calendar_order', 'period_is_calendar_interval', 'day_number_reads_back', 'summary_date_is_that_day', 'mixed_levels_keep_both', 'bounds_independent', 'single_day_period']
 LEVEL = 'proof'
 RULE = ('logs with days in any order and repeated dates x every (begin, end) over a 5-day window incl. absent / equal / inverted / outside x '
         '{reg, bal, csv log, print, report totals / quantity / unresolved} x the command\'s other switches (single element / food, old and left-aligned layouts, totals-only, collapse modes, --desc) x flag position {global, sub-command, both with different values, one bound on each level} x keywords '
-        '(today, yesterday, last7, last30) against --today, also across daylight-saving switches of the process zone (New York, Berlin, Lord Howe) x summary DATE x TZ {UTC, America/New_York, Pacific/Kiritimati} (in-process zone and the real binary); '
+        '(today, yesterday, last7, last30) against --today, days from year 1 to 9999 (before 1678 and after 2262 included), also across daylight-saving switches of the process zone (New York, Berlin, Lord Howe) x summary DATE x TZ {UTC, America/New_York, Pacific/Kiritimati} (in-process zone and the real binary); '
         'metamorphic oracle: output with a period = output on the file with the other days deleted; dates shown by reg / print / csv log / summary = dates of the selected days as written in the log; non-trivial = a bound that falls on a logged day or an unsorted / repeated log; '
         'distinct by (log hash, command, bounds, position, zone)')
 ASSUMPTIONS = ['naturaldate free-text dates are outside the model; the model has no zones (a heading is a UTC midnight), daylight-saving switches are exercised on the implementation by the metamorphic oracle', '--today fixes the current date (a UTC midnight)']
@@ -146,6 +146,28 @@ def gen(g, nlogs, tier):
                     k = app(path, {b'food.yaml': bookfile, b'log.yaml': render(g, kept, layout)}, g=gf, kind=' '.join(path) + ' dst (deleted)', tz=tz, today_date=today)
                     a.meta.update({'pair': k, 'b': kw, 'e': which, 'pos': 'global', 'log': dlog, 'kept_days': kept, 'layout': layout})
                     cases += [a, k]
+        # days centuries away from the epoch of the clock (before 1678, after 2262: beyond the range of nanosecond counters),
+        # the first and the last year a four-digit layout can write
+        if n % 3 == 0:
+            far = [datetime.date(y, m, d_) for y, m, d_ in ((1, 1, 1), (999, 12, 31), (1500, 1, 1), (1677, 9, 21), (1677, 9, 22), (1969, 12, 31), (1970, 1, 1),
+                                                          (2262, 4, 11), (2262, 4, 12), (2600, 1, 1), (9999, 12, 31), (2021, 6, 15))]
+            flog = [(d_, [(r.choice([b'a/b', b'c', b'milk/1l']), g.qty_exact(small=True))], []) for d_ in r.sample(far, 6)]
+            for _ in range(4):
+                b, e = r.choice([None] + far), r.choice([None] + far)
+                kept = [(d_, ents, ns) for d_, ents, ns in flog if (b is None or d_ >= b) and (e is None or d_ <= e)]
+                gf = {'today': fmt(datetime.date(2021, 1, 28))}
+                if layout != '2006/01/02':
+                    gf['dateFormat'] = layout
+                path = r.choice([['csv', 'log'], ['print'], ['reg'], ['report', 'totals'], ['bal']])
+                ga = dict(gf)
+                if b:
+                    ga['begin'] = fmt(b)
+                if e:
+                    ga['end'] = fmt(e)
+                a = app(path, {b'food.yaml': bookfile, b'log.yaml': render(g, flog, layout)}, g=ga, kind=' '.join(path) + ' far', today_date=datetime.date(2021, 1, 28))
+                k = app(path, {b'food.yaml': bookfile, b'log.yaml': render(g, kept, layout)}, g=gf, kind=' '.join(path) + ' far (deleted)', today_date=datetime.date(2021, 1, 28))
+                a.meta.update({'pair': k, 'b': b, 'e': e, 'pos': 'global', 'log': flog})
+                cases += [a, k]
         for d in DAYS[1:4]:
             for arg, today in ((fmt(d), datetime.date(2021, 1, 28)), ('today', d), ('yesterday', d + datetime.timedelta(days=1))):
                 # the day window of `summary` is built in the process zone: offsets near the ends of the day matter most
